@@ -357,13 +357,13 @@ type analyser struct {
 	taint     map[types.Object]*tinfo
 	fi        *finfo
 	ret       map[string]bool
-	results   []types.Object        // named results
+	results   []types.Object                // named results
 	litVar    map[types.Object]*ast.FuncLit // local variable bound (only) to function literals
-	litEsc    map[types.Object]bool // ... and used other than by calling it
+	litEsc    map[types.Object]bool         // ... and used other than by calling it
 	litOfVar  map[*ast.FuncLit]types.Object
 	changed   bool
 	impl      map[string][]*types.Func // method name -> repository methods
-	callFun   map[ast.Expr]bool     // expressions in call position
+	callFun   map[ast.Expr]bool        // expressions in call position
 	recording bool
 }
 
@@ -985,6 +985,27 @@ func (a *analyser) collectAliases(body ast.Node) {
 			case *ast.CallExpr:
 				// bind the arguments of a call of a local closure to the closure's parameters
 				ci := a.classify(x)
+				if ci.kind == ckBuiltin && ci.name == "copy" && len(x.Args) == 2 {
+					// copy(dst, src) of reference-typed elements: dst now holds what src holds
+					zero := &ast.BasicLit{Kind: token.INT, Value: "0"}
+					if st, ok := a.typeOf(x.Args[1]).Underlying().(*types.Slice); ok && isRefType(st.Elem()) {
+						if t := a.pathTaint(x.Args[1], false); t != nil {
+							base, _ := a.splitPath(x.Args[0])
+							if id, ok := base.(*ast.Ident); ok {
+								if obj := a.obj(id); obj != nil && !a.isPkgLevel(obj) {
+									h := &tinfo{roots: t.roots, own: 0}
+									if _, already := a.taint[obj]; !already {
+										h.own = 1
+										a.setTaint(obj, h)
+									} else if a.taint[obj].merge(h, false) {
+										a.changed = true
+									}
+								}
+							}
+						}
+					}
+					_ = zero
+				}
 				if ci.kind == ckLocalLit && ci.lit != nil {
 					i := 0
 					for _, fld := range ci.lit.Type.Params.List {
@@ -1013,6 +1034,9 @@ func (a *analyser) collectAliases(body ast.Node) {
 		})
 		if !a.changed {
 			break
+		}
+		if pass == 11 {
+			a.fi.unknown["alias propagation did not converge"] = true
 		}
 	}
 	for _, obj := range a.results {
